@@ -10,6 +10,8 @@ pub mod c13;
 pub mod c14;
 pub mod c15;
 pub mod c16;
+pub mod c17;
+pub mod c18;
 pub mod c19;
 pub mod c20;
 pub mod drv;
@@ -30,6 +32,8 @@ pub fn run(ctx: &Ctx) -> Option<Report> {
         "C14" => c14::run(ctx),
         "C15" => c15::run(ctx),
         "C16" => c16::run(ctx),
+        "C17" => c17::run(ctx),
+        "C18" => c18::run(ctx),
         "C19" => c19::run(ctx),
         "C20" => c20::run(ctx),
         _ => return None,
@@ -48,6 +52,8 @@ pub fn replay(id: &str, engine: &str, case: &Value) -> Result<(), String> {
         "C14" => c14::replay(engine, case),
         "C15" => c15::replay(engine, case),
         "C16" => c16::replay(engine, case),
+        "C17" => c17::replay(engine, case),
+        "C18" => c18::replay(engine, case),
         "C19" => c19::replay(engine, case),
         "C20" => c20::replay(engine, case),
         _ => Err(format!("unknown property {}", id)),
